@@ -525,6 +525,16 @@ pub fn restore(
         // component has an even number of characters
         let even = dest.file_name().map_or(false, |n| n.len() % 2 == 0);
         let spelled = if even { dest.join("") } else { dest.to_path_buf() };
+        // ... and the file-creation mask the restoring process happens to run under: the usual
+        // 022, or 077, 002, 027, by the length of the whole destination path
+        let mask = [0o022, 0o077, 0o002, 0o027][dest.as_os_str().len() % 4];
+        struct Unmask(libc::mode_t);
+        impl Drop for Unmask {
+            fn drop(&mut self) {
+                unsafe { libc::umask(self.0) };
+            }
+        }
+        let _unmask = Unmask(unsafe { libc::umask(mask) });
         conserve::restore(&a, &spelled, options, m).await
     })
 }
@@ -550,6 +560,28 @@ pub fn list_entries(
             }
         }
         Ok(out)
+    })
+}
+
+/// Several subtree listings through ONE opened `StoredTree` value, one after the other (the
+/// first of them the whole tree), as a program that keeps the value would make them.
+pub fn list_many_through_one_tree(archive: &Path, sel: &Sel, subtrees: &[String], max: usize) -> OpReport<Vec<Vec<String>>> {
+    run_op(move |m| async move {
+        let a = Archive::open(transport(archive, &None)).await?;
+        let st = a.open_stored_tree(sel.policy()).await?;
+        let mut all = Vec::new();
+        for s in std::iter::once(&"/".to_string()).chain(subtrees.iter()) {
+            let mut it = st.iter_entries(apath_of(s), Exclude::nothing(), m.clone());
+            let mut out = Vec::new();
+            while let Some(e) = it.next().await {
+                out.push(e.apath.to_string());
+                if out.len() > max {
+                    break;
+                }
+            }
+            all.push(out);
+        }
+        Ok(all)
     })
 }
 
